@@ -26,6 +26,9 @@ class FlatMapFuture(MapFuture):
 
         self.__flattened = True
         self._map_fn = lambda x: x
+        # The future returned by the function is mirrored as is: the error
+        # function applies to the original input only, not to that future.
+        self._error_fn = None
         self._set_delegate(result)
 
 
